@@ -17,8 +17,9 @@ func init() { components["bus"] = func(string) { runBus() } }
 
 // logMem is an instrumented memory.Memory: contents are a seeded hash of (id, address); every access is logged.
 type logMem struct {
-	id  uint32
-	log *[]string
+	id   uint32
+	log  *[]string
+	size uint32
 }
 
 func (m *logMem) Read(a uint32) byte {
@@ -27,7 +28,7 @@ func (m *logMem) Read(a uint32) byte {
 }
 func (m *logMem) Write(a uint32, v byte) { *m.log = append(*m.log, fmt.Sprintf("m%x:%x", m.id, a)) }
 func (m *logMem) Shutdown()              {}
-func (m *logMem) Size() uint32           { return 0 }
+func (m *logMem) Size() uint32           { return m.size }
 func (m *logMem) Clear()                 {}
 func (m *logMem) Dump(uint32) []byte     { return nil }
 
@@ -95,6 +96,7 @@ func (o busOp) String() string {
 
 // execBusOps runs a history against the real bus.Bus and renders each result in the protocol's canonical form.
 var sharedBus *bus.Bus
+var busDirty bool
 
 func execBusOps(ops []busOp) []string {
 	// one 16 MiB segment table is reused; every successful Attach is undone afterwards by attaching nil
@@ -103,9 +105,20 @@ func execBusOps(ops []busOp) []string {
 	}
 	b := sharedBus
 	defer func() {
+		if busDirty {
+			sharedBus, busDirty = nil, false
+			return
+		}
 		for _, o := range ops {
 			if o.kind == 'A' && o.s%16 == 0 && (o.e+1)%16 == 0 && o.e <= 0xFFFFFF {
-				b.Attach(nil, "", o.s, o.e)
+				func() {
+					defer func() {
+						if recover() != nil {
+							sharedBus = nil
+						}
+					}()
+					b.Attach(nil, "", o.s, o.e)
+				}()
 			}
 		}
 	}()
@@ -120,11 +133,22 @@ func execBusOps(ops []busOp) []string {
 			}()
 			switch o.kind {
 			case 'A':
-				var mm memory.Memory = &logMem{o.m, &log}
+				// every memory reports a size: the length of a well-formed range, otherwise (end < start, one of the degenerate argument
+				// shapes) a multiple of 16 determined by the operation itself
+				sz := o.e - o.s + 1
+				if o.e < o.s {
+					sz = 16 << ((o.m + o.s>>4 + o.e) % 9)
+				}
+				var mm memory.Memory = &logMem{o.m, &log, sz}
 				if o.m >= 5 && o.s%16 == 0 && (o.e+1)%16 == 0 && o.e >= o.s && o.e <= 0xFFFFFF && o.e-o.s < 1<<16 {
 					mm = realMemory(o.m, o.s, o.e, &log) // ids 5 and 6 are the library's own RAM / ROM devices
+				} else if o.m >= 5 && o.e < o.s && o.s <= 0xFFFFFF && o.s+sz-1 <= 0xFFFFFF {
+					mm = realMemory(o.m, o.s, o.s+sz-1, &log) // a real device of that size where the range would start
 				}
 				err := b.Attach(mm, "m", o.s, o.e)
+				if err == nil && (o.s%16 != 0 || (o.e+1)%16 != 0) {
+					busDirty = true // an Attach that had to be rejected was accepted: the shared table cannot be undone range by range
+				}
 				switch {
 				case err == nil:
 					out[i] = "ok"
@@ -202,15 +226,103 @@ func genBusHistory(r *prng.R, rep *report.Report) []busOp {
 		base = uint32(r.N(1<<20)) << 4 & 0xFFFC00
 	}
 	span := uint32(0x400)
+	// a third of the histories work on whole banks: ranges spanning several 64 KiB banks from end to end (optionally with a partial
+	// bank before / after), later re-attached in part
+	banked := r.N(3) == 0
+	var bank0, nbanks uint32
+	if banked {
+		nbanks = uint32(2 + r.N(5))
+		bank0 = []uint32{0, 0x100 - nbanks, uint32(r.N(int(0x100 - nbanks))), uint32(r.N(int(0x100 - nbanks)))}[r.N(4)]
+		base, span = bank0<<16, nbanks<<16
+		rep.Count("history over several whole banks")
+	}
 	pick := func() uint32 { return base + uint32(r.N(int(span))) }
 	var ranges [][2]uint32
+	var probeBurst func(s, e uint32)
 	attach := func() {
 		s := (pick() &^ 15)
 		e := s + uint32(r.N(8))*16 + 15
+		if banked {
+			switch r.N(6) {
+			case 0, 1: // several whole banks
+				b0 := bank0 + uint32(r.N(int(nbanks-1)))
+				b1 := b0 + 1 + uint32(r.N(int(bank0+nbanks-b0-1)))
+				s, e = b0<<16, b1<<16|0xFFFF
+				if r.Chance(25) && s >= 0x10000 {
+					s -= uint32(1+r.N(0xFFF)) << 4 // a partial bank in front
+				}
+				if r.Chance(25) && e < 0xFF0000 {
+					e += uint32(1+r.N(0xFFF)) << 4 // a partial bank behind
+				}
+				rep.Count("attach: several whole banks")
+			case 2: // exactly one whole bank
+				s &= 0xFF0000
+				e = s | 0xFFFF
+				rep.Count("attach: one whole bank")
+			case 3: // a large part of one bank
+				e = s&0xFF0000 | (s&0xFFFF+uint32(r.N(0x1000))<<4)&0xFFFF | 15
+				if e < s {
+					s, e = e&^15, s|15
+				}
+				rep.Count("attach: part of a bank")
+			case 4: // a few segments straddling a bank boundary
+				s = (s&0xFF0000 + 0x10000 - uint32(1+r.N(4))<<4) & 0xFFFFFF
+				e = s + uint32(1+r.N(8))<<4 + 15
+				rep.Count("attach: straddles a bank boundary")
+			default:
+				rep.Count("attach: few segments inside a bank")
+			}
+		}
 		if e > 0xFFFFFF {
 			e = 0xFFFFFF
 		}
-		switch r.N(12) {
+		switch r.N(16) {
+		case 12: // degenerate argument shapes: the end is 0 / below the start / equal to the start
+			switch r.N(5) {
+			case 0:
+				e = 0
+				if r.Chance(20) {
+					s = 0
+				}
+				rep.Count("attach: aligned start, end 0")
+			case 1:
+				e = s
+				rep.Count("attach: end equals start")
+			case 2:
+				if s >= 32 {
+					e = s - uint32(2+r.N(30))
+				}
+				rep.Count("attach: misaligned end below the start")
+			case 3:
+				if s >= 16 {
+					e = s - 1 // start == end+1, aligned: an empty range
+				}
+				rep.Count("attach: start equals end+1")
+			default:
+				e = uint32(r.N(int(s/16+1)))*16 + uint32(r.N(15)) // any misaligned end at or below the start
+				rep.Count("attach: misaligned end below the start")
+			}
+		case 13: // both ends misaligned
+			s += uint32(1 + r.N(15))
+			e -= uint32(1 + r.N(15))
+			rep.Count("attach: both ends misaligned")
+		case 14: // one end on the border of the address space
+			if r.Bool() {
+				s = 0
+				if r.Chance(30) {
+					e = uint32(r.N(15))
+				} else if e > 0x80000 {
+					e = uint32(r.N(0x8000))<<4 | 15
+				}
+			} else {
+				e = 0xFFFFFF
+				if r.Chance(30) {
+					s = 0xFFFFF0 + uint32(1+r.N(15))
+				} else if e-s > 0x80000 {
+					s = e - uint32(r.N(0x8000))<<4 - 15
+				}
+			}
+			rep.Count("attach: at $000000 / $FFFFFF")
 		case 0:
 			s += uint32(1 + r.N(15)) // misaligned start
 			rep.Count("attach: misaligned start")
@@ -243,6 +355,69 @@ func genBusHistory(r *prng.R, rep *report.Report) []busOp {
 		}
 		ranges = append(ranges, [2]uint32{s, e})
 		ops = append(ops, busOp{kind: 'A', m: uint32(1 + r.N(6)), s: s, e: e})
+		if r.Chance(75) {
+			probeBurst(s, e)
+		}
+	}
+	// after an Attach (successful or not) the routing is probed where it must and where it must not have changed: the ends of the
+	// new and of every earlier range, the same offsets in sibling banks, neighbouring 16-byte segments, where a memory of the
+	// size the attached one reports would end, the borders of the address space
+	probeBurst = func(s, e uint32) {
+		var cand []uint32
+		add := func(a uint32) {
+			if a <= 0xFFFFFF {
+				cand = append(cand, a)
+			}
+		}
+		inner := s
+		if e > s && e <= 0xFFFFFF {
+			inner = s + uint32(r.N(int(e-s+1)))
+		}
+		for _, a := range []uint32{s, inner, e, inner ^ uint32(r.N(16))} {
+			add(a)
+			add(a - 1)
+			add(a + 1)
+			add(a + 16)
+			add(a - 16)
+			for j := uint32(1); j <= 3; j++ {
+				add(a + j<<16) // the same offset in the banks after / before
+				add(a - j<<16)
+			}
+			add(a&0xFFFF | uint32(r.N(256))<<16)
+		}
+		for k := uint(4); k <= 16; k += 2 {
+			add(s + 1<<k - 1) // where a device of 2^k bytes at the start would end, and the byte behind it
+			add(s + 1<<k)
+		}
+		for _, p := range ranges {
+			add(p[0])
+			add(p[0] - 1)
+			add(p[1])
+			add(p[1] + 1)
+		}
+		add(0)
+		add(0xFFFFFF)
+		for k := 3 + r.N(5); k > 0 && len(cand) > 0; k-- {
+			a := cand[r.N(len(cand))]
+			switch r.N(10) {
+			case 0, 1:
+				ops = append(ops, busOp{kind: 'W', s: a})
+			case 2:
+				ops = append(ops, busOp{kind: 'T', s: a})
+				// a byte access right after the 24-bit read, in the segment the read ended in or next to it
+				a2 := a&0xFF0000 | uint32(uint16(a)+2)
+				a2 = (a2&^15 + uint32(r.N(3))*16 - 16 + uint32(r.N(16))) & 0xFFFFFF
+				ops = append(ops, busOp{kind: "RW"[r.N(2)], s: a2})
+				rep.Count("read24 then byte access nearby")
+			case 3:
+				lo := a - min(a, uint32(r.N(24)))
+				hi := min(a+uint32(r.N(24)), 0xFFFFFF)
+				ops = append(ops, busOp{kind: 'D', s: lo, e: hi, n: hi - lo + 1 + uint32(r.N(3))})
+			default:
+				ops = append(ops, busOp{kind: 'R', s: a})
+			}
+			rep.Count("probe after attach")
+		}
 	}
 	query := func() {
 		var a uint32
@@ -408,6 +583,39 @@ func runBus() {
 		[]busOp{{kind: 'A', m: 1, s: 0x10000, e: 0x1000F}, {kind: 'A', m: 2, s: 0x1FFF0, e: 0x1FFFF}, {kind: 'A', m: 3, s: 0x20000, e: 0x2000F}, {kind: 'T', s: 0x1FFFE}, {kind: 'R', s: 0x10001}},
 		[]busOp{{kind: 'A', m: 1, s: 0xFFFFF0, e: 0xFFFFFF}, {kind: 'D', s: 0xFFFFE8, e: 0xFFFFFF, n: 24}, {kind: 'R', s: 0xFFFFFF}},
 	)
+	// several whole banks under one Attach, then part of one bank re-attached: the same offsets in the sibling banks, the
+	// neighbouring segments and the far ends keep their routing
+	for _, b0 := range []uint32{0x00, 0x7E, 0xFC} {
+		s0, e0 := b0<<16, (b0+3)<<16|0xFFFF
+		s1, e1 := (b0+1)<<16|0x2000, (b0+1)<<16|0x7FFF
+		h := []busOp{{kind: 'A', m: 1, s: s0, e: e0}, {kind: 'A', m: 2, s: s1, e: e1}}
+		for _, a := range []uint32{s1, s1 - 1, e1, e1 + 1, s1 + 0x1234} {
+			for d := int32(-1); d <= 2; d++ {
+				x := uint32(int32(a) + d<<16)
+				if x >= s0 && x <= e0 {
+					h = append(h, busOp{kind: 'R', s: x}, busOp{kind: 'W', s: x})
+				}
+			}
+		}
+		h = append(h, busOp{kind: 'T', s: s1 + 0x10000 - 2}, busOp{kind: 'R', s: s1 + 0x10000}, busOp{kind: 'D', s: s1 + 0x10000 - 12, e: s1 + 0x10000 + 19, n: 32},
+			busOp{kind: 'A', m: 3, s: s0 + 0x20000, e: e0}, busOp{kind: 'R', s: s0 + 0x1FFFF}, busOp{kind: 'R', s: s0 + 0x20000}, busOp{kind: 'R', s: s1}, busOp{kind: 'R', s: s1 + 0x20000},
+			busOp{kind: 'R', s: s0}, busOp{kind: 'R', s: e0})
+		hists = append(hists, h)
+	}
+	// degenerate argument shapes on top of an attached area and over a hole: rejected, and every probe routes as before
+	for _, m := range []uint32{1, 5, 6} {
+		for _, se := range [][2]uint32{{0x1000, 0}, {0, 0}, {0x1000, 0x1000}, {0x1000, 0xFFE}, {0x1001, 0x100F}, {0x1000, 0x100E}, {0x200000, 0}, {0xFFFFF0, 0}, {0xFFFFF1, 0xFFFFFF}, {0x1008, 0x1007}} {
+			h := []busOp{{kind: 'A', m: 2, s: 0, e: 0x1FFF}, {kind: 'A', m: m, s: se[0], e: se[1]}}
+			for _, a := range []uint32{0, 0xF, 0x10, 0xFFF, 0x1000, 0x100F, 0x1010, 0x103F, 0x1040, 0x10FF, 0x1FFF, 0x2000, 0x200000, 0x20000F, 0x200010, 0x2000FF, 0xFFFFF0, 0xFFFFFF} {
+				h = append(h, busOp{kind: 'R', s: a})
+			}
+			h = append(h, busOp{kind: 'W', s: se[0] & 0xFFFFFF}, busOp{kind: 'D', s: 0x1FF8, e: 0x2017, n: 32}, busOp{kind: 'D', s: 0x200000, e: 0x20001F, n: 32})
+			hists = append(hists, h)
+		}
+	}
+	// the whole address space under one Attach, then a hole-free re-attachment of its two ends
+	hists = append(hists, []busOp{{kind: 'A', m: 1, s: 0, e: 0xFFFFFF}, {kind: 'A', m: 2, s: 0, e: 0xF}, {kind: 'A', m: 3, s: 0xFFFFF0, e: 0xFFFFFF}, {kind: 'R', s: 0}, {kind: 'R', s: 0x10},
+		{kind: 'R', s: 0x10000}, {kind: 'R', s: 0xFF0000}, {kind: 'R', s: 0xFFFFEF}, {kind: 'R', s: 0xFFFFF0}, {kind: 'T', s: 0xFFFFFE}, {kind: 'W', s: 0x7FFFFF}, {kind: 'D', s: 0xFFFFE8, e: 0xFFFFFF, n: 24}})
 	for i := 0; i < n; i++ {
 		hists = append(hists, genBusHistory(r.Fork(), rep))
 	}
@@ -426,6 +634,7 @@ func runBus() {
 	}
 	distinct := map[string]bool{}
 	var ops int64
+	nviol := 0
 	for i, h := range hists {
 		got := execBusOps(h)
 		want := busOracle(h)
@@ -445,7 +654,13 @@ func runBus() {
 		// property oracle on the real code
 		for j := range h {
 			if got[j] != want[j] {
+				nviol++
+				if nviol > 15 {
+					break
+				}
+				// the failing history is minimised on a fresh Bus each time, so that the reported input fails by itself
 				m := shrinkBus(h, func(c []busOp) bool {
+					sharedBus = nil
 					g, w := execBusOps(c), busOracle(c)
 					for k := range c {
 						if g[k] != w[k] {
@@ -454,8 +669,10 @@ func runBus() {
 					}
 					return false
 				})
+				sharedBus = nil
 				rep.Add(report.Finding{Property: "C13", Kind: "violation", Clause: "routing follows the most recent successful Attach / EaDump equals byte-wise reads (Go bus vs property oracle)",
 					Input: renderOps(m), Expected: strings.Join(busOracle(m), ";"), Actual: strings.Join(execBusOps(m), ";")})
+				sharedBus = nil
 				break
 			}
 		}
@@ -470,7 +687,10 @@ func runBus() {
 	rep.Evaluations = ops
 	rep.Distinct = int64(len(distinct))
 	rep.CountN("histories", int64(len(hists)))
-	rep.Rule = "random Attach/read/write/24-bit-read/dump histories (aligned, misaligned, overlapping, adjacent, re-attached, empty ranges; dumps with every start/end alignment " +
+	rep.Rule = "random Attach/read/write/24-bit-read/dump histories (aligned, misaligned, overlapping, adjacent, re-attached, empty ranges; a third of the histories attach ranges spanning several whole " +
+		"64 KiB banks, with partial banks in front / behind, then re-attach parts of single banks; degenerate argument shapes: end 0, end = start, end below the start (aligned and not), both ends misaligned, " +
+		"ends at $000000 / $FFFFFF, memories reporting non-zero sizes; after most Attach calls a burst of probes at the ends of all ranges, the same offsets in sibling banks, neighbouring segments, " +
+		"device-size distances and the borders of the space, including a byte access right after a 24-bit read; dumps with every start/end alignment " +
 		"across memories and holes; memories 5 and 6 are the library's own memory.RAM / memory.ROM with offsets that are not multiples of 16; windows at $000000, random and $FFFC00) run on the real bus.Bus with address-logging memories, on the Lean model and on a Go oracle of the property; " +
 		"evaluations = operations executed; distinct_nontrivial = distinct history shapes (sequence of op kind + outcome class)"
 	rep.Emit()
